@@ -72,8 +72,6 @@ def run(repo, rep, tier):
     # non-banner lines must not be accepted: a line that does not start with SSH-<digit>.<digits> is outside the language
     neg, info = inclusion(impl, Lang(r'^SSH-\d\..*$'))
     rep.check('inclusion', 'everything RX_BANNER accepts starts with SSH-<digit>.', neg, rxb, 'RX_BANNER accepts %r, which is not an identification string' % (info if not neg else ''))
-    used_groups = sorted({int(unparse(n.args[0])) for n in walk_no_nested(bp) if isinstance(n, ast.Call) and unparse(n.func) == 'mx.group' and n.args and isinstance(n.args[0], ast.Constant)})
-    rep.check('inclusion', 'parse() reads groups 1-4', used_groups == [1, 2, 3, 4], bp, 'parse() reads groups %s' % used_groups)
     # group 3 (software) excludes whitespace: software token language
     m3 = re.search(r'\(\[\^\\s\]\*\)', pattern)
     rep.check('inclusion', 'the software group is a run of non-space characters', m3 is not None, rxb, 'software group is no longer ([^\\s]*)')
@@ -99,47 +97,64 @@ def run(repo, rep, tier):
         rep.check('inclusion', 'RX_PROTOCOL has two groups, both digit runs', pl.groups == 2 and proto_pattern.count('(\\d') == 2, rxpr, 'RX_PROTOCOL is %r' % proto_pattern, sample={'rule': 'inclusion', 'RX_PROTOCOL': proto_pattern})
     else:
         rep.check('inclusion', 'RX_PROTOCOL is derived from the protocol sub-pattern', False, rxpr, 'RX_PROTOCOL construction not recognised')
-    psrc = [n for n in walk_no_nested(bp) if isinstance(n, ast.Assign) and unparse(n.targets[0]) == 'protocol' and not isinstance(n.value, ast.Tuple)]
-    ok = len(psrc) == 1 and isinstance(psrc[0].value, ast.Call) and unparse(psrc[0].value.func) == 'min' and 'mx.group(1)' in unparse(psrc[0].value) and 'RX_PROTOCOL' in unparse(psrc[0].value) and 'ascii_banner' not in unparse(psrc[0].value)
-    rep.check('inclusion', 'the protocol version is taken from the matched version prefix (group 1) only', ok, psrc[0] if psrc else bp,
-              'protocol extracted from %s: an SSH-x.y look-alike inside the software string or comments can change the reported protocol' % (unparse(psrc[0].value)[:80] if psrc else '?'))
-    conv = [n for n in walk_no_nested(bp) if isinstance(n, ast.Assign) and unparse(n.targets[0]) == 'protocol' and isinstance(n.value, ast.Tuple)]
-    rep.check('inclusion', 'parse() converts both protocol groups with int()', len(conv) == 1 and unparse(conv[0].value) == '(int(protocol[0]), int(protocol[1]))', conv[0] if conv else bp, 'protocol conversion changed')
+    # ---- Banner.parse by interpretation (props/_bannerparse.py): for a family of identification lines (well-formed, multi-version, with comments, with characters
+    # outside printable ASCII, look-alikes inside software / comments, malformed) the constructor receives the documented reading of the line: the smallest listed
+    # protocol version of the version prefix only, the software token, the comments with blanks collapsed, and the conformance flag of the RAW line; the pattern is
+    # applied to the sanitised copy; a line that does not match yields None
+    from props import _bannerparse as _BP
+    if not proto_pattern:
+        raise AnalysisError('RX_PROTOCOL pattern not computable')
+    pats = {'cls.RX_BANNER': pattern, 'Banner.RX_BANNER': pattern, 'cls.RX_PROTOCOL': proto_pattern, 'Banner.RX_PROTOCOL': proto_pattern}
+    badp = {'inclusion': [], 'sanitise': []}
+    for line in _BP.LINES:
+        got = _BP.parse(repo, pats, line)
+        want = _BP.expected(line)
+        rep.evals()
+        if got is not None and '<crash>' in got:
+            badp['inclusion'].append('%r: parse() raises %s' % (line, got['<crash>']))
+        elif got != want:
+            rule = 'sanitise' if (got is None) != (want is None) or (got and want and got.get('valid_ascii') != want.get('valid_ascii')) else 'inclusion'
+            badp[rule].append('%r is read as %r, the documented reading is %r' % (line, got, want))
+    rep.check('inclusion', 'protocol (smallest version of the prefix only), software and comments are the documented reading of the line (%d lines)' % len(_BP.LINES), not badp['inclusion'], bp,
+              'Banner.parse misreads an identification line -- %s' % (badp['inclusion'][0] if badp['inclusion'] else ''), stmt='banner reading')
+    rep.check('sanitise', 'the pattern is matched against the sanitised copy, the validity flag is that of the raw line, a non-matching line yields None (%d lines)' % len(_BP.LINES), not badp['sanitise'], bp,
+              'Banner.parse: %s' % (badp['sanitise'][0] if badp['sanitise'] else ''), stmt='banner sanitise / flag')
+    # the two sanitising helpers of Utils, interpreted (helpers and the filter -- a lambda or a named predicate -- in place) on strings that exercise the code-point
+    # classes < 32, 32..126, 127, > 127: is_print_ascii <=> every character in 32..126; to_print_ascii replaces exactly the other characters by "?"
+    from sa.listinterp import Interp as _I16
+    from sa.abseval import Unknown as _U16
 
-    # ---- rule 2: sanitise before match ------------------------------------------------------------------------------------
-    par = bp.args.args[1].arg
-    va = [n for n in walk_no_nested(bp) if isinstance(n, ast.Assign) and unparse(n.targets[0]) == 'valid_ascii']
-    ab = [n for n in walk_no_nested(bp) if isinstance(n, ast.Assign) and unparse(n.targets[0]) == 'ascii_banner']
-    mx = [n for n in walk_no_nested(bp) if isinstance(n, ast.Assign) and unparse(n.targets[0]) == 'mx']
-    rep.check('sanitise', 'validity flag is computed on the raw line', len(va) == 1 and unparse(va[0].value) == 'Utils.is_print_ascii(%s)' % par, va[0] if va else bp, 'valid_ascii source changed')
-    rep.check('sanitise', 'the sanitised copy is made from the raw line', len(ab) == 1 and unparse(ab[0].value) == 'Utils.to_print_ascii(%s)' % par, ab[0] if ab else bp, 'ascii_banner source changed')
-    rep.check('sanitise', 'the pattern is matched against the sanitised copy', len(mx) == 1 and unparse(mx[0].value) == 'cls.RX_BANNER.match(ascii_banner)', mx[0] if mx else bp, 'match target is %s' % (unparse(mx[0].value) if mx else '?'))
-    ctor = [n for n in walk_no_nested(bp) if isinstance(n, ast.Call) and isinstance(n.func, ast.Name) and n.func.id == 'cls']
-    rep.check('sanitise', 'the flag is stored in the Banner', len(ctor) == 1 and unparse(ctor[0].args[3]) == 'valid_ascii', ctor[0] if ctor else bp, 'Banner constructor arguments changed')
-    none_ret = [n for n in walk_no_nested(bp) if isinstance(n, ast.If) and unparse(n.test) == 'mx is None' and isinstance(n.body[-1], ast.Return) and unparse(n.body[-1].value) == 'None']
-    rep.check('sanitise', 'a non-matching line yields None', len(none_ret) == 1, bp, 'no-match return changed')
+    def _ures(call):
+        f = call.func
+        if isinstance(f, ast.Attribute) and isinstance(f.value, ast.Name) and f.value.id in ('cls', 'Utils', 'self') and repo.has_func('utils', 'Utils.' + f.attr):
+            return repo.func('utils', 'Utils.' + f.attr)
+        return None
     ipa = repo.func('utils', 'Utils.is_print_ascii')
     tpa = repo.func('utils', 'Utils.to_print_ascii')
-    lam = []
-    for f in (ipa, tpa):
-        ls = [n for n in walk_no_nested(f) if isinstance(n, ast.Lambda)]
-        if len(ls) != 1:
-            raise AnalysisError('filter lambda not found in %s' % f.name)
-        lam.append(ls[0])
-    rep.check('sanitise', 'is_print_ascii and to_print_ascii use the same filter', unparse(lam[0]) == unparse(lam[1]), lam[1], 'filters differ: %s vs %s' % (unparse(lam[0]), unparse(lam[1])))
-    for L in lam:
-        arg = L.args.args[0].arg
-        for cp, want in ((31, False), (32, True), (126, True), (127, False), (9, False), (255, False)):
-            got = bool(ev(L.body, {arg: cp}))
+    rep.saw(ipa), rep.saw(tpa)
+    samples = ['SSH-2.0-x', '', ' ~', 'a\tb', 'a\x1fb', 'a\x7fb', 'caf\xe9', '\x00', 'tab\there \u20ac', '}~\x7f\x80']
+    bads = []
+    for smp in samples:
+        for f, oracle in ((ipa, _BP.printable), (tpa, _BP.sanitised)):
+            env = {a.arg: None for a in f.args.args}
+            nd = len(f.args.defaults)
+            for a_, d_ in zip(f.args.args[len(f.args.args) - nd:], f.args.defaults):
+                env[a_.arg] = ast.literal_eval(d_)
+            env[f.args.args[1].arg] = smp
+            try:
+                fin = _I16(resolver=_ures, try_normal_path=True).run(f.body, env)
+            except _U16 as ex:
+                raise AnalysisError('Utils.%s cannot be interpreted: %s' % (f.name, ex))
             rep.evals()
-            rep.check('sanitise', 'filter(%d) is %s' % (cp, want), got == want, L, 'printable-ASCII filter classifies code point %d as %s' % (cp, got))
-    ta = repo.func('utils', 'Utils._to_ascii')
-    t = unparse(ta)
-    rep.check('sanitise', 'rejected characters are replaced by "?" (63) in replace mode and dropped only in ignore mode', 'r.append(63)' in t and "if errors == 'ignore'" in t and 'if char_filter(i)' in t and 'r.append(i)' in t, ta, '_to_ascii replacement logic changed')
-    rep.check('sanitise', 'to_print_ascii defaults to replace', "errors: str='replace'" in unparse(tpa) or "errors='replace'" in unparse(tpa.args), tpa, 'to_print_ascii default changed')
-    ia = repo.func('utils', 'Utils._is_ascii')
-    t = unparse(ia)
-    rep.check('sanitise', '_is_ascii is false as soon as one character fails the filter', 'if not char_filter(i)' in t and 'return r' in t and 'r = True' in t, ia, '_is_ascii changed')
+            if len(fin) != 1 or fin[0].get('<forks>') or fin[0].get('<outcome>') != 'return':
+                raise AnalysisError('Utils.%s does not evaluate on a single path for %r' % (f.name, smp))
+            got = fin[0].get('<return>')
+            if not isinstance(got, (str, bool)):
+                raise AnalysisError('Utils.%s(%r): result not computable by the interpreter (%r)' % (f.name, smp, got))
+            if got != oracle(smp):
+                bads.append('Utils.%s(%r) is %r, documented: %r' % (f.name, smp, got, oracle(smp)))
+    rep.check('sanitise', 'is_print_ascii <=> all characters in 32..126; to_print_ascii replaces every other character by "?" (%d strings)' % len(samples), not bads, tpa,
+              'printable-ASCII helpers changed -- %s' % (bads[0] if bads else ''), stmt='printable ascii helpers')
     outf = repo.func('ssh_audit', 'output')
     w = [n for n in walk_no_nested(outf) if isinstance(n, ast.Call) and unparse(n.func) == 'out.warn' and 'non-printable ASCII' in unparse(n)]
     ok = len(w) == 1
